@@ -321,6 +321,16 @@ pub fn run_meta_case(seed: u64, worker: u64, index: u64) -> (Case, Option<Discre
                 });
             }
         }
+        // some instances additionally keep a derived mock in their own value chain (`make_ref(self.clone())`, what an
+        // answer function returning `&dyn Trait` does): it is released together with its owner, so it cannot
+        // influence any outcome nor the verdict, whichever instance owns it
+        if cfg.has_lock && rng.chance(1, 3) {
+            for _ in 0..rng.range(1, 2) {
+                let at = rng.range(k, hist.len());
+                hist.insert(at, Op::MakeRefClone(rng.below(k + 1)));
+                stats.bump("meta_route_parked_clone");
+            }
+        }
         let c2 = Case {
             partial: base.partial,
             clauses: base.clauses.clone(),
